@@ -354,17 +354,25 @@ pub fn run(ctx: &Ctx) -> i32 {
     // the tilemap layer's other flag bits (background, locked, reference ...) do not change what a tile looks like
     if ctx.wants_family("layer-flags") {
         let words: [u16; 5] = [3, 1 | 8, 1 | 4 | 8, 1 | 0x40, 0xFFFF];
-        let mut cases: Vec<(usize, usize, u8)> = Vec::new();
+        // (format, flag word, transparent index, blend mode, opacity pair)
+        let mut cases: Vec<(usize, usize, u8, u16, usize)> = Vec::new();
         for fi in 0..3usize {
             for w in 0..words.len() {
                 for t in [0u8, 3] {
-                    cases.push((fi, w, t));
+                    cases.push((fi, w, t, 0, 0));
+                }
+            }
+            // the tilemap layer's blend mode and opacity: the tilemap image is the tiles with alpha scaled, whatever the mode
+            for mode in [0u16, 1, 2, 12, 16, 18] {
+                for oi in 0..4usize {
+                    cases.push((fi, 0, 0, mode, oi));
                 }
             }
         }
-        ctx.family("layer-flags", cases.len() as u64, "a tilemap layer whose flag word is visible+editable / visible+background / visible+locked+background / visible+reference / all bits, 3 pixel formats, indexed with transparent index 0 or 3; tiles contain every index incl. the transparent one (palette entries opaque and translucent): tilemap image, tile images and tileset image compared with the model and pixel by pixel with each other", true);
-        cases.par_iter().for_each(|(fi, w, t)| {
-            let case = || format!("fmt{} layer.flags={:#x} transparent={}", fi, words[*w], t);
+        let opairs: [(u8, u8); 4] = [(255, 255), (255, 128), (100, 255), (200, 128)];
+        ctx.family("layer-flags", cases.len() as u64, "a tilemap layer whose flag word is visible+editable / visible+background / visible+locked+background / visible+reference / all bits, or whose blend mode is one of 6 with 4 opacity pairs, 3 pixel formats, indexed with transparent index 0 or 3; tiles contain every index incl. the transparent one (palette entries opaque and translucent): tilemap image, tile images and tileset image compared with the model and pixel by pixel with each other", true);
+        cases.par_iter().for_each(|(fi, w, t, mode, oi)| {
+            let case = || format!("fmt{} layer.flags={:#x} transparent={} mode={} opacities={:?}", fi, words[*w], t, mode, opairs[*oi]);
             if !ctx.wants("layer-flags", &case) {
                 return;
             }
@@ -381,12 +389,14 @@ pub fn run(ctx: &Ctx) -> i32 {
             f.frames[0].push(Body::Tileset(tileset(1, 4, 2, 2, tile_pixels(&fmt, 4, 2, 2, 4, (0, 7)), "ts")));
             let mut l = Layer::tilemap("m", 1);
             l.flags = words[*w];
+            l.blend = *mode;
+            l.opacity = opairs[*oi].0;
             f.frames[0].push(Body::Layer(l));
             f.frames[0].push(raw_cel(0, 0, 0, 255, 6, 4, pixels(&fmt, 6, 4, 9, (0, 7))));
-            f.frames[0].push(tm_cel(1, 0, 0, 255, 3, 2, vec![1, 2, 3, 0, 3, 1]));
+            f.frames[0].push(tm_cel(1, 0, 0, opairs[*oi].1, 3, 2, vec![1, 2, 3, 0, 3, 1]));
             let r = conform(ctx, "layer-flags", &case, &f, &want);
             if let Some(o) = &r.obs {
-                if let Some(msg) = direct(o, 255) {
+                if let Some(msg) = direct(o, mul_un8(opairs[*oi].0, opairs[*oi].1)) {
                     ctx.violation(Violation { family: "layer-flags".into(), case: case(), sig: format!("direct:{}", sig_of(&msg)), detail: msg, bytes: Some(f.encode()), extra: json!({}) });
                 }
             }
